@@ -9,6 +9,7 @@ mod c03;
 mod c05;
 mod c08;
 mod c09;
+mod c10;
 mod c11;
 mod c12;
 mod c17;
@@ -77,6 +78,7 @@ fn main() {
             "C03" => c03::run(ctx, c03::Mode::C03),
             "C16" => c03::run(ctx, c03::Mode::C16),
             "C09" => c09::run(ctx),
+            "C10" => c10::run(ctx),
             "C11" => c11::run(ctx),
             "C12" => c12::run(ctx),
             "C17" => c17::run(ctx),
